@@ -32,6 +32,7 @@ import (
 	minttypes "github.com/cosmos/cosmos-sdk/x/mint/types"
 	slashingtypes "github.com/cosmos/cosmos-sdk/x/slashing/types"
 	stakingtypes "github.com/cosmos/cosmos-sdk/x/staking/types"
+	gogoproto "github.com/cosmos/gogoproto/proto"
 	ibcexported "github.com/cosmos/ibc-go/v8/modules/core/exported"
 	coretypes "github.com/cosmos/ibc-go/v8/modules/core/types"
 	feemarkettypes "github.com/evmos/ethermint/x/feemarket/types"
@@ -111,9 +112,12 @@ type Chain struct {
 func GovAddr() sdk.AccAddress { return authtypes.NewModuleAddress(govtypes.ModuleName) }
 func GovAuthority() string    { return GovAddr().String() }
 
+// Init sets the global bech32 / coin-type configuration once per process.
+func Init() { cfgOnce.Do(func() { fxtypes.SetConfig(false) }) }
+
 // New builds the app, the genesis and runs InitChain; the first block is open on return.
 func New(cfg Config) *Chain {
-	cfgOnce.Do(func() { fxtypes.SetConfig(false) })
+	Init()
 	if cfg.NumVals <= 0 {
 		cfg.NumVals = 3
 	}
@@ -377,7 +381,9 @@ func (c *Chain) EndBlock(dt time.Duration, txs ...[]byte) (resp *abci.ResponseFi
 }
 
 // Next = EndBlock with the default block time.
-func (c *Chain) Next(txs ...[]byte) (*abci.ResponseFinalizeBlock, error) { return c.EndBlock(0, txs...) }
+func (c *Chain) Next(txs ...[]byte) (*abci.ResponseFinalizeBlock, error) {
+	return c.EndBlock(0, txs...)
+}
 
 // Skip produces n empty blocks.
 func (c *Chain) Skip(n int) error {
@@ -594,3 +600,12 @@ func (c *Chain) Supply(ctx sdk.Context, denom string) sdkmath.Int {
 func ModuleAddr(name string) sdk.AccAddress { return authtypes.NewModuleAddress(name) }
 
 func BigInt(i sdkmath.Int) *big.Int { return i.BigInt() }
+
+// Resp decodes the message response of a successful Msg() into out.
+func (c *Chain) Resp(r Result, out gogoproto.Message) error {
+	sr, ok := r.Resp.(*sdk.Result)
+	if !ok || sr == nil || len(sr.MsgResponses) == 0 {
+		return fmt.Errorf("no message response")
+	}
+	return c.App.AppCodec().Unmarshal(sr.MsgResponses[0].Value, out)
+}
